@@ -170,7 +170,7 @@ class P:
         if d["cls"] != cls:
             return "violates", "%s injected at invocation %d: evaluation returned %s, expected %s" % (tag[0], tag[1], d["cls"], cls)
         want_log = "L[%s]" % ";".join("%d(%s)" % (h, ",".join(speceval.to_proto_value(a) for a in args)) for h, args in log)
-        if d["log"] != want_log:
+        if d["log"] != want_log and not speceval.log_matches(d["log"], log):
             return "violates", "handlers invoked: %s, expected exactly %s" % (d["log"], want_log)
         if dump.startswith("C!") or dump == "PANIC":
             return "violates", "the context's lock is poisoned after the %s" % tag[0]
